@@ -115,7 +115,9 @@ class P:
                     ex = "x + 1"
                 return "E:%s" % hx(A.respace(rnd, ex))
             e = rnd.choice(["%s=1", "%s++", "++%s", "%s+=%s", "%s=%s=2", "1/0", "%s=1/0", "%s", "%s = %s + 1", "09", "%s=09", "%s=(%s=4)+1", "%s--*0", "1 ? %s=5 : 0",
-                            "(1 ? %s : %s) = 7", "(0 ? %s : %s)++", "--(%s ? %s : z)", "(%s ? %s : z) *= 5", "(%s) = 3", "((%s))++", "(%s, %s) = 1", "-%s = 2", "%s++ = 1", "(%s=1) = 2"])
+                            "(1 ? %s : %s) = 7", "(0 ? %s : %s)++", "--(%s ? %s : z)", "(%s ? %s : z) *= 5", "(%s) = 3", "((%s))++", "(%s, %s) = 1", "-%s = 2", "%s++ = 1", "(%s=1) = 2",
+                            "(%s || %s) = 7", "(%s && %s) = 7", "(%s || 0)++", "--(%s || %s)", "(%s && %s) += 2", "(%s | %s) = 1", "(%s ^ %s)++", "(!%s) = 1", "(~%s)--",
+                            "(%s == %s) = 3", "(%s < %s) -= 1", "(%s + %s) = 1", "(%s << %s) = 1", "(%s || %s) + (%s = 5)"])
             return "E:%s" % hx(e.replace("%s", v, 1).replace("%s", u))
 
         xcases = []
